@@ -138,6 +138,12 @@ Section Table.
       apply (map_nth (fun r => nth j r dflt)).
   Qed.
 
+  (** row-index addressing is exact whatever the row names (repeated or not): table[i] carries the i-th row name and the
+      cells of the i-th data row *)
+  Theorem index_exact T i c j : col_index T c = Some j ->
+    rd_key (row_by_index T i) = nth i (rows T) (KS []) /\ rd_get (row_by_index T i) c = Some (cell T i j).
+  Proof. intro H. cbn [row_by_index rd_key rd_get]. rewrite H. split; reflexivity. Qed.
+
   (** a reversed connection key returns the negated row, under the key as asked *)
   Theorem reversed_key_negates T k i :
     allow_rev T = true -> 1 < key_len k -> is_col T k = false -> is_row T k = false ->
